@@ -125,6 +125,11 @@ func callExFromNative(ic *interop.Context, caller util.Uint160, cs *state.Contra
 	if md == nil {
 		return fmt.Errorf("method '%s' not found", name)
 	}
+	// Safe methods are read-only no matter who calls them, native contracts
+	// (onNEP17Payment and other callbacks) included.
+	if md.Safe {
+		f &^= (callflag.WriteStates | callflag.AllowNotify)
+	}
 	var whitelisted bool
 	if ic.PolicyChecker != nil {
 		if ic.PolicyChecker.IsBlocked(ic.DAO, cs.Hash) {
